@@ -25,6 +25,7 @@ fn sym_json(s: &Sym) -> Value {
         Sym::Pd { name, arity } => json!({"pd": name, "arity": arity}),
         Sym::Inv => json!("inv"),
         Sym::X => json!("x"),
+        Sym::XEmpty => json!("x-empty"),
         Sym::Init(n) => json!({"init": n}),
     }
 }
@@ -34,6 +35,9 @@ fn sym_parse(v: &Value) -> Sym {
     }
     if v == "x" {
         return Sym::X;
+    }
+    if v == "x-empty" {
+        return Sym::XEmpty;
     }
     if let Some(n) = v.get("init") {
         return Sym::Init(n.as_u64().unwrap() as usize);
@@ -300,10 +304,11 @@ fn mode_words(ctx: &Arc<Ctx>) {
             }
         }
     }
-    // two parameters, single-parameter functions only: a 7-symbol alphabet explored to length 7 (8 thorough) - long enough for
+    // two parameters, single-parameter functions only: an 8-symbol alphabet (an EMPTY independent variable included) explored to length 7 (8 thorough) - long enough for
     // specifications with two complete functions plus x and the initial guess, e.g. two functions of the SAME parameter
     let alpha_two: Vec<Sym> = vec![
         Sym::X,
+        Sym::XEmpty,
         Sym::Init(2),
         Sym::Func { names: vec!["a"], arity: 1 },
         Sym::Func { names: vec!["b"], arity: 1 },
@@ -781,8 +786,12 @@ mod routing {
     }
 
     pub fn enumerate(thorough: bool, mut visit: impl FnMut(ModelDesc)) {
-        let letters = ["a", "b", "c", "d"];
+        // two naming schemes: plain letters, and names that contain one another (in every order within the model's list)
+        for letters in [["a", "b", "c", "d"], ["alpha", "a", "al", "alp"]] {
         for np in [3usize, 4] {
+            if letters[0] == "alpha" && np == 4 && !thorough {
+                continue;
+            }
             for perm in permutations(np) {
                 let names: Vec<String> = perm.iter().map(|&i| letters[i].to_string()).collect();
                 let subsets = ordered_subsets(np, np);
@@ -823,6 +832,7 @@ mod routing {
                     }
                 }
             }
+        }
         }
         // a user-defined basis function type with 11 arguments (closures stop at 10) on a 12-parameter model
         {
